@@ -6,6 +6,7 @@ use itertools::enumerate;
 use crate::check::constrain::constraint::builder::ConstrBuilder;
 use crate::check::constrain::constraint::expected::Expect::*;
 use crate::check::constrain::constraint::expected::Expected;
+use crate::check::constrain::constraint::{Constraint, MapExp};
 use crate::check::constrain::generate::env::Environment;
 use crate::check::constrain::generate::{generate, Constrained};
 use crate::check::context::arg::SELF;
@@ -220,6 +221,11 @@ pub fn id_from_var(
         generate(expr, &env.is_expr(true), ctx, constr)?;
     }
 
+    // The initialiser is evaluated before the variable exists: identifiers in it denote what was
+    // visible before this definition, also if the definition shadows one of them.
+    let (old_mapping, old_global_mapping) = (env.var_mapping.clone(), constr.var_mapping.clone());
+    let as_before = |exp: &Expected| exp.map_exp(&old_mapping, &old_global_mapping);
+
     let mut env = env.clone();
     let identifier = Identifier::try_from(var)?.as_mutable(mutable);
     match (ty, expr) {
@@ -240,12 +246,9 @@ pub fn id_from_var(
                 &Expected::from(var),
                 &env,
             );
-            constr.add(
-                "variable with expression",
-                &ty_exp,
-                &Expected::from(expr),
-                &env,
-            );
+            let expr_exp = as_before(&Expected::from(expr));
+            let constraint = Constraint::new("variable with expression", &ty_exp, &expr_exp);
+            constr.add_constr_map(&constraint, &env.var_mapping, true);
         }
         (Some(ty), None) => {
             for (f_name, (f_mut, name)) in match_name(&identifier, ty, var.pos)? {
@@ -292,11 +295,12 @@ pub fn id_from_var(
                 if let Node::Tuple { elements } = &expr.node {
                     if elements.len() == temp_names.len() {
                         for (i, (expr, ty)) in enumerate(elements.iter().zip(&temp_names)) {
-                            let expr_exp = Expected::from(expr);
+                            let expr_exp = as_before(&Expected::from(expr));
                             let expr_ty = Expected::new(expr.pos, &Type { name: ty.clone() });
 
                             let msg = format!("tuple literal element {i}");
-                            constr.add(&msg, &expr_ty, &expr_exp, &env);
+                            let constraint = Constraint::new(&msg, &expr_ty, &expr_exp);
+                            constr.add_constr_map(&constraint, &env.var_mapping, true);
                         }
                     } else {
                         let msg = format!(
@@ -326,17 +330,18 @@ pub fn id_from_var(
                 return Err(vec![TypeErr::new(var.pos, msg)]);
             };
 
-            constr.add(
-                "variable with only expression",
-                &Expected::from(var),
-                &Expected::from(expr),
-                &env,
+            let expr_exp = as_before(&Expected::from(expr));
+            let var_exp = Expected::from(var).map_exp(&env.var_mapping, &constr.var_mapping);
+            let msg = "variable with only expression";
+            constr.add_constr_map(
+                &Constraint::new(msg, &var_exp, &expr_exp),
+                &env.var_mapping,
+                true,
             );
-            constr.add(
-                "variable with only expression",
-                &exp_expr,
-                &Expected::from(expr),
-                &env,
+            constr.add_constr_map(
+                &Constraint::new(msg, &exp_expr, &expr_exp),
+                &env.var_mapping,
+                true,
             );
         }
         (None, None) => {
